@@ -6,7 +6,7 @@
 From Coq Require Import List ZArith NArith Bool.
 From Coq.Strings Require Import Byte.
 Import ListNotations.
-From SV Require Import Text G_codes G_flags C05_Model C05_Lemmas C06_Model C06_Lemmas C06_Round6.
+From SV Require Import Text G_codes G_flags C05_Model C05_Lemmas C06_Model C06_Lemmas C06_Round6 C06_Round7.
 Local Open Scope Z_scope.
 
 (* ---- extraction (no update_fts) ---- *)
@@ -464,3 +464,120 @@ Example C06_witness_round6 :
   aligned (bs "-"%bs) (bs "ACG-T"%bs) 0 2 = true /\ aligned (bs "-"%bs) (bs "A-CG"%bs) 1 2 = false /\
   chain_ok_minus 8 (mkLoc 5 7 S_REVERSE 0) [mkLoc 1 3 S_REVERSE 0] = true.
 Proof. exact witness_round6. Qed.
+
+(* ---- round 7: histories over the feature list (in-place edits of seq.fts interleaved with lookups by type name) ---- *)
+(* sorted(objs, key, reverse) for the two keys of FeatureList.sort (0 = position: Feature.__lt__, otherwise len): a permutation; ascending
+   (descending with reverse=True) in the key; features the key does not order keep their relative order, in BOTH directions *)
+Theorem C06_sort_dir_spec : forall k reverse l,
+  Permutation.Permutation (sort_dir (key_lt k) reverse l) l /\
+  Sorted.StronglySorted (fun a b => if reverse then key_lt k a b = false else key_lt k b a = false) (sort_dir (key_lt k) reverse l) /\
+  (forall p, (forall a b, p a = true -> p b = true -> key_lt k a b = false) ->
+             filter p (sort_dir (key_lt k) reverse l) = filter p l).
+Proof. exact sort_dir_spec. Qed.
+Print Assumptions C06_sort_dir_spec.
+
+(* FeatureList.sort(keys): the first key decides first (it is applied last, to the list sorted by the remaining keys) *)
+Theorem C06_fts_sort_keys : forall reverse l,
+  fts_sort [] reverse l = l /\
+  (forall k ks, fts_sort (k :: ks) reverse l = sort_dir (key_lt k) reverse (fts_sort ks reverse l)) /\
+  (forall ks, Permutation.Permutation (fts_sort ks reverse l) l).
+Proof. exact fts_sort_keys. Qed.
+Print Assumptions C06_fts_sort_keys.
+
+(* fts.get(name) is the head of fts.select(name), select is the sub-list of the matching features in list order, a list of one
+   name is that name *)
+Theorem C06_get_head_select : forall name l,
+  fts_get name l = hd_error (fts_select name l) /\
+  (forall f, In f (fts_select name l) <-> In f l /\ type_matches name f = true) /\
+  (forall a b, fts_select name (a ++ b) = fts_select name a ++ fts_select name b) /\
+  (forall f, type_in [name] f = type_matches name f).
+Proof. exact get_head_select. Qed.
+Print Assumptions C06_get_head_select.
+
+(* the type-name lookup after an in-place edit, from the pieces of the list before it: fts[k] = x; del fts[k]; fts.append(x);
+   fts.reverse() (the LAST feature of the type) *)
+Theorem C06_get_after_edit : forall name l k x,
+  fts_get name (list_set l k x) =
+    match fts_get name (firstn k l) with
+    | Some f => Some f
+    | None => if type_matches name x then Some x else fts_get name (skipn (S k) l)
+    end /\
+  fts_get name (list_del l k) =
+    match fts_get name (firstn k l) with Some f => Some f | None => fts_get name (skipn (S k) l) end /\
+  fts_get name (l ++ [x]) =
+    match fts_get name l with Some f => Some f | None => if type_matches name x then Some x else None end /\
+  fts_get name (rev l) = hd_error (rev (fts_select name l)).
+Proof. exact get_after_edit. Qed.
+Print Assumptions C06_get_after_edit.
+
+(* fts.insert(i, x): the index is clamped into the list; x is the answer iff it matches and nothing before it does *)
+Theorem C06_get_after_insert : forall name l i x,
+  exists k, (k <= length l)%nat /\ list_ins l i x = firstn k l ++ x :: skipn k l /\
+    fts_get name (list_ins l i x) =
+      match fts_get name (firstn k l) with
+      | Some f => Some f
+      | None => if type_matches name x then Some x else fts_get name (skipn k l)
+      end.
+Proof. exact get_after_insert. Qed.
+Print Assumptions C06_get_after_insert.
+
+(* seq.fts.sort(); seq[name]: a feature of the type at the smallest position (start, then stop, of its whole range); among the
+   features of the type at that position the one that came first BEFORE the sort; found after the sort iff found before *)
+Theorem C06_get_after_sort : forall name l,
+  (forall f, fts_get name (fts_sort [0] false l) = Some f ->
+     In f l /\ type_matches name f = true /\
+     (forall g, In g l -> type_matches name g = true -> ft_pos_lt g f = false) /\
+     hd_error (filter (fun g => type_matches name g && negb (ft_pos_lt f g) && negb (ft_pos_lt g f)) l) = Some f) /\
+  (fts_get name (fts_sort [0] false l) = None <-> fts_get name l = None).
+Proof. exact get_after_sort. Qed.
+Print Assumptions C06_get_after_sort.
+
+(* l[k] = x and del l[k], position by position *)
+Theorem C06_list_edit_spec : forall (l : list feature) k x, (k < length l)%nat ->
+  length (list_set l k x) = length l /\
+  nth_error (list_set l k x) k = Some x /\
+  (forall j, j <> k -> nth_error (list_set l k x) j = nth_error l j) /\
+  S (length (list_del l k)) = length l /\
+  (forall j, (j < k)%nat -> nth_error (list_del l k) j = nth_error l j) /\
+  (forall j, (k <= j)%nat -> nth_error (list_del l k) j = nth_error l (S j)).
+Proof. exact (@list_edit_spec feature). Qed.
+Print Assumptions C06_list_edit_spec.
+
+(* negative indices count from the end; outside [-len, len) there is no position (IndexError in every edit that addresses one) *)
+Theorem C06_norm_idx_spec : forall len i, 0 <= len ->
+  match norm_idx len i with
+  | Some k => - len <= i < len /\ Z.of_nat k = (if i <? 0 then i + len else i)
+  | None => i < - len \/ len <= i
+  end.
+Proof. exact norm_idx_spec. Qed.
+Print Assumptions C06_norm_idx_spec.
+
+(* fts.remove(x): the first feature equal to x goes, the others keep their order *)
+Theorem C06_remove_first_spec : forall x l,
+  match remove_first x l with
+  | Some r => exists pre y post, l = pre ++ y :: post /\ r = pre ++ post /\ ft_eqb y x = true /\
+                                 forallb (fun z => negb (ft_eqb z x)) pre = true
+  | None => forallb (fun z => negb (ft_eqb z x)) l = true
+  end.
+Proof. exact remove_first_spec. Qed.
+Print Assumptions C06_remove_first_spec.
+
+(* a history continues from the state its prefix produced, and that state does not depend on the lookups made on the way: the
+   answers to any continuation s2 are the same with every earlier lookup (get / select / not-in-place window / basket index) removed *)
+Theorem C06_history_lookups_transparent : forall qs s1 s2,
+  snd (fhist_run qs (s1 ++ s2)) = snd (fhist_run qs s1) ++ snd (fhist_run (fhist_state qs s1) s2) /\
+  fhist_state qs (filter (fun s => negb (is_lookup (snd s))) s1) = fhist_state qs s1 /\
+  snd (fhist_run (fhist_state qs (filter (fun s => negb (is_lookup (snd s))) s1)) s2) = snd (fhist_run (fhist_state qs s1) s2).
+Proof. exact history_lookups_transparent. Qed.
+Print Assumptions C06_history_lookups_transparent.
+
+(* non-vacuity: two cds, the later one further left: sort() changes the answer of the lookup (the history of seeded change C06-21) *)
+Example C06_witness_sort_changes_lookup :
+  let late := mkFt (Some (bs "cds"%bs)) [mkLoc 11 17 S_REVERSE 0] in
+  let g := mkFt (Some (bs "gene"%bs)) [mkLoc 1 18 S_FORWARD 0] in
+  let early := mkFt (Some (bs "CDS"%bs)) [mkLoc 2 5 S_FORWARD 0; mkLoc 7 9 S_FORWARD 0] in
+  fts_get (bs "cds"%bs) [late; g; early] = Some late /\
+  fts_sort [0] false [late; g; early] = [g; early; late] /\
+  fts_get (bs "cds"%bs) (fts_sort [0] false [late; g; early]) = Some early /\
+  fts_sort [1; 0] true [late; g; early] = [g; early; late].
+Proof. exact (conj eq_refl (conj eq_refl (conj eq_refl eq_refl))). Qed.
